@@ -233,8 +233,12 @@ static econf_err pr_key_file(struct econf_file *key_file)
         size_t key_count = 0;
 
         econf_error = econf_getKeys(key_file, group, &key_count, &keys);
-        if (group == NULL && econf_error == ECONF_NOKEY)
-            continue; /* no keys without a group */
+        if (econf_error == ECONF_NOKEY) {
+            /* no keys without a group resp. a group without keys */
+            if (group != NULL)
+                printf("%s\n\n", group);
+            continue;
+        }
         if (econf_error) {
 	    print_error(econf_error);
             econf_free(keys);
